@@ -9,7 +9,7 @@ Local Open Scope N_scope.
 (* `local u = error "boom"; {a: u, b: 1}`: cell 1 = error "m7", root cell 0 forces it *)
 Definition boom_store : store :=
   {| cells := [ {| owner := 0; st := Pending (EForce 1) |}; {| owner := 0; st := Pending (EFail 7) |} ];
-     guards := [ {| cond := None; checked := false |} ] |}.
+     guards := [ {| layers := [[]]; checked := false |} ] |}.
 Definition boom_reqs : list req := [Eval 500 0; Eval 500 0].
 
 Lemma boom_unrestored :
@@ -20,7 +20,7 @@ Proof. vm_compute. split; reflexivity. Qed.
 (* `{ assert false : "g4", c1:: 5 }` behind root 0 *)
 Definition assert_store : store :=
   {| cells := [ {| owner := 0; st := Pending (EForce 1) |}; {| owner := 1; st := Done 5 |} ];
-     guards := [ {| cond := None; checked := false |}; {| cond := Some 4; checked := false |} ] |}.
+     guards := [ {| layers := [[]]; checked := false |}; {| layers := [[None; Some 4]; []]; checked := false |} ] |}.
 Definition assert_reqs : list req := [Eval 500 0; Manifest 500 0].
 
 Lemma assert_unrestored :
@@ -32,7 +32,7 @@ Proof. vm_compute. split; reflexivity. Qed.
 Definition assert_store2 : store :=
   {| cells := [ {| owner := 0; st := Pending (EForce 2) |}; {| owner := 0; st := Pending (EForce 2) |};
                 {| owner := 1; st := Done 5 |} ];
-     guards := [ {| cond := None; checked := false |}; {| cond := Some 4; checked := false |} ] |}.
+     guards := [ {| layers := [[]]; checked := false |}; {| layers := [[None; Some 4]; []]; checked := false |} ] |}.
 Definition assert_reqs2 : list req := [Eval 500 0; Eval 500 1].
 
 Lemma assert_unrestored2 :
@@ -47,7 +47,7 @@ Definition chain_store : store :=
                 {| owner := 0; st := Pending (EForce 3) |};
                 {| owner := 0; st := Pending (EAdd (EConst 1) (EConst 2)) |};
                 {| owner := 0; st := Pending (EForce 2) |} ];
-     guards := [ {| cond := None; checked := false |} ] |}.
+     guards := [ {| layers := [[]]; checked := false |} ] |}.
 Definition chain_reqs : list req := [Eval 2 4; Eval 2 0].
 
 Lemma chain_memo_limit : forall restore,
